@@ -29,6 +29,9 @@ def rand_scenario(rng, drv, k):
         for _ in range(ln):
             n += 1
             unit.append([rng.choice(MENU[drv]), 8 * ci + n % 8 + 1])
+            if mode == "sequence" and rng.random() < 0.2:
+                # what library sequences also yield: a pause (milliseconds) or a progress note
+                unit.append(rng.choice([["sleep", rng.choice([0, 1, 30])], ["progress", n]]))
         r = rng.random()
         if ci == 0 or r < 0.3:
             start = {"time": 0.0}
